@@ -1,177 +1,145 @@
 import Gimli.Lemmas.Leb
-/-! Signed LEB128: reading what `Leb128::signed` writes gives the value back (`signed_roundtrip`).
-The decoding loop is followed through the encoding loop group by group; the bit operations are
-turned into arithmetic by `or_step`/`signext`, and the remaining integer arithmetic is closed by
-`omega` after splitting on the (at most ten) group positions. Used by C03 for `DW_FORM_sdata`. -/
-set_option linter.unusedSimpArgs false
+/-! Signed LEB128: `leb128::read::signed ∘ Leb128::signed = id` on every `i64` (the unsigned
+counterpart is `Leb.unsigned_roundtrip`). Proved by induction over the groups with the shift made
+concrete (ten cases), so that all bit operations become additions that `omega` can check. -/
 namespace Gimli.Leb
 open Gimli
 
-/-- the sign extension and `as i64` of `leb128::read::signed` -/
-def finish (res sh : Nat) (byte : UInt8) : Int :=
-  toI64 (if sh < 64 ∧ (byte.toNat / 64) % 2 = 1 then res ||| ((2 ^ 64 - 1) <<< sh % 2 ^ 64) else res)
+/-- the sign-extension and reinterpretation at the end of `leb128::read::signed` -/
+def finish (R sh : Nat) (b : UInt8) : Int :=
+  toI64 (if sh < 64 ∧ (b.toNat / 64) % 2 = 1 then R ||| ((2 ^ 64 - 1) <<< sh % 2 ^ 64) else R)
 
-theorem signed_eq (bs : Bytes) :
-    signed bs = (signedLoop bs 0 0 >>= fun x => pure (finish x.1 x.2.1 x.2.2.1, x.2.2.2)) := by
+theorem ofNat_toNat' (n : Nat) (h : n < 256) : (UInt8.ofNat n).toNat = n := by
+  simp [Nat.mod_eq_of_lt h]
+
+theorem signed_eq_finish (bs : Bytes) (R sh : Nat) (b : UInt8) (rest : Bytes)
+    (h : signedLoop bs 0 0 = .ok (R, sh, b, rest)) : signed bs = .ok (finish R sh b, rest) := by
   unfold signed finish
-  cases signedLoop bs 0 0 with
-  | ok p => obtain ⟨a, b, c, d⟩ := p; rfl
-  | err e => rfl
-  | panic w => rfl
-  | diverge => rfl
+  rw [h]
 
-theorem or_add_of_lt (a b n : Nat) (hb : b < 2 ^ n) : b ||| (a <<< n) = b + a * 2 ^ n := by
-  rw [Nat.or_comm, ← Nat.shiftLeft_add_eq_or_of_lt hb, Nat.shiftLeft_eq]; omega
+/-- sign extension for a concrete shift, as an addition -/
+theorem signext (R s m : Nat) (hR : R < 2 ^ s) (hm : ((2 ^ 64 - 1) <<< s) % 2 ^ 64 = (m <<< s) % 2 ^ 64)
+    (hfit : m * 2 ^ s < 2 ^ 64) : R ||| ((2 ^ 64 - 1) <<< s % 2 ^ 64) = R + 2 ^ s * m := by
+  rw [hm]; exact or_step R m s hR hfit
 
-theorem encodeSFuel_succ (fuel : Nat) (v : Int) :
-    encodeSFuel (fuel + 1) v =
-      if v / 64 = 0 ∨ v / 64 = -1 then [UInt8.ofNat ((v % 256).toNat % 128)]
-      else UInt8.ofNat ((v % 256).toNat % 128 + 128) :: encodeSFuel fuel (v / 64 / 2) := by
+/-- the statement of the induction: after `k` groups (`R < 2^(7k)` accumulated), the remaining
+value `v` is encoded with `fuel` groups available -/
+def StepGoal (fuel k R : Nat) (v : Int) (rest : Bytes) : Prop :=
+  ∃ R' sh' b, signedLoop (encodeSFuel fuel v ++ rest) R (7 * k) = .ok (R', sh', b, rest) ∧
+    finish R' sh' b = R + 2 ^ (7 * k) * v
+
+def StepHyp (fuel k R : Nat) (v : Int) : Prop :=
+  k ≤ 9 ∧ R < 2 ^ (7 * k) ∧ 10 ≤ fuel + k ∧
+  -(2 ^ 63 : Int) ≤ R + 2 ^ (7 * k) * v ∧ (R : Int) + 2 ^ (7 * k) * v < 2 ^ 63
+
+set_option hygiene false in
+macro "sleb_step" _k:num s:num k1:num : tactic => `(tactic| (
+  obtain ⟨_, hR, hf, hlo, hhi⟩ := hyp
+  unfold StepGoal
+  simp only [Nat.reduceMul, Nat.reducePow, Int.reducePow, Int.reduceNeg] at hR hlo hhi ⊢
   rw [encodeSFuel]
+  have hx : (v % 256).toNat % 128 < 128 := Nat.mod_lt _ (by decide)
+  have hxv : (((v % 256).toNat % 128 : Nat) : Int) = v % 128 := by omega
+  generalize (v % 256).toNat % 128 = x at hx hxv
+  by_cases hlast : v / 64 = 0 ∨ v / 64 = -1
+  · rw [if_pos hlast]
+    simp only [List.cons_append, List.nil_append]
+    rw [signedLoop]
+    have hb : (UInt8.ofNat x).toNat = x := ofNat_toNat' x (by omega)
+    simp only [hb]
+    rw [if_neg (by omega), if_pos hx]
+    refine ⟨_, _, _, rfl, ?_⟩
+    unfold finish
+    simp only [hb, Nat.mod_eq_of_lt hx]
+    have hfit : x * 2 ^ $s < 2 ^ 64 := by omega
+    rw [or_step R x $s (by omega) hfit]
+    by_cases hneg : (x / 64) % 2 = 1
+    · rw [if_pos ⟨by omega, hneg⟩]
+      rw [signext (R + 2 ^ $s * x) ($s + 7) (2 ^ (64 - ($s + 7)) - 1) (by omega) (by decide) (by decide)]
+      unfold toI64
+      omega
+    · rw [if_neg (by omega)]
+      unfold toI64
+      omega
+  · rw [if_neg hlast]
+    simp only [List.cons_append]
+    rw [signedLoop]
+    have hb : (UInt8.ofNat (x + 128)).toNat = x + 128 := ofNat_toNat' _ (by omega)
+    have hmod : (x + 128) % 128 = x := by omega
+    simp only [hb, hmod]
+    rw [if_neg (by omega), if_neg (by omega)]
+    have hfit : x * 2 ^ $s < 2 ^ 64 := by omega
+    rw [or_step R x $s (by omega) hfit]
+    have := ih $k1 (R + 2 ^ $s * x) (v / 64 / 2) ⟨by omega,
+      by simp only [Nat.reduceMul, Nat.reducePow]; omega, by omega,
+      by simp only [Nat.reduceMul, Nat.reducePow, Int.reducePow, Int.reduceNeg]; omega,
+      by simp only [Nat.reduceMul, Nat.reducePow, Int.reducePow]; omega⟩
+    obtain ⟨R', sh', b, h1, h2⟩ := this
+    refine ⟨R', sh', b, h1, ?_⟩
+    rw [h2]
+    simp only [Nat.reduceMul, Nat.reducePow, Int.reducePow]
+    omega))
 
-theorem signedLoop_cons (b : UInt8) (tl : Bytes) (result shift : Nat) :
-    signedLoop (b :: tl) result shift =
-      if shift = 63 ∧ b.toNat ≠ 0 ∧ b.toNat ≠ 0x7f then .err .rBadSignedLeb128
-      else if b.toNat < 128 then .ok (result ||| (((b.toNat % 128) <<< shift) % 2 ^ 64), shift + 7, b, tl)
-      else signedLoop tl (result ||| (((b.toNat % 128) <<< shift) % 2 ^ 64)) (shift + 7) := by
-  rw [signedLoop]
-
-theorem toI64_small (n : Nat) (h : n < 2 ^ 63) : toI64 n = n := by
-  unfold toI64
-  have : n % 2 ^ 64 = n := Nat.mod_eq_of_lt (by omega)
-  rw [this, if_pos h]
-
-theorem toI64_big (n : Nat) (h1 : 2 ^ 63 ≤ n) (h2 : n < 2 ^ 64) : toI64 n = (n : Int) - 2 ^ 64 := by
-  unfold toI64
-  have : n % 2 ^ 64 = n := Nat.mod_eq_of_lt h2
-  rw [this, if_neg (by omega)]
-
-
-/-- the sign extension `result |= !0 << shift` on a value below `2^shift` -/
-theorem signext (k : Nat) (hk : k ≤ 8) (x : Nat) (hx : x < 2 ^ (7 * k + 7)) :
-    x ||| ((2 ^ 64 - 1) <<< (7 * k + 7) % 2 ^ 64) = x + (2 ^ 64 - 2 ^ (7 * k + 7)) := by
-  have hc : (2 ^ 64 - 1) <<< (7 * k + 7) % 2 ^ 64 = (2 ^ (64 - (7 * k + 7)) - 1) <<< (7 * k + 7) := by
-    have hk' : k = 0 ∨ k = 1 ∨ k = 2 ∨ k = 3 ∨ k = 4 ∨ k = 5 ∨ k = 6 ∨ k = 7 ∨ k = 8 := by omega
-    rcases hk' with rfl | rfl | rfl | rfl | rfl | rfl | rfl | rfl | rfl <;> decide
-  rw [hc, or_add_of_lt _ _ _ hx]
-  have hk' : k = 0 ∨ k = 1 ∨ k = 2 ∨ k = 3 ∨ k = 4 ∨ k = 5 ∨ k = 6 ∨ k = 7 ∨ k = 8 := by omega
-  rcases hk' with rfl | rfl | rfl | rfl | rfl | rfl | rfl | rfl | rfl <;>
-    simp only [Nat.reduceMul, Nat.reducePow, Nat.reduceSub, Nat.reduceAdd]
-
-/-- arithmetic of the last group, `k ≤ 8` -/
-theorem T8 (k : Nat) (hk : k ≤ 8) (v : Int) (result : Nat) (ht : v / 64 = 0 ∨ v / 64 = -1)
-    (hlo : -(2 : Int) ^ (63 - 7 * k) ≤ v) (hhi : v < (2 : Int) ^ (63 - 7 * k)) (hr : result < 2 ^ (7 * k)) :
-    (v % 256).toNat % 128 < 128 ∧
-    ((v % 256).toNat % 128) * 2 ^ (7 * k) < 2 ^ 64 ∧
-    (0 ≤ v → ((v % 256).toNat % 128 / 64) % 2 = 0 ∧ result + 2 ^ (7 * k) * ((v % 256).toNat % 128) < 2 ^ 63 ∧
-      ((result + 2 ^ (7 * k) * ((v % 256).toNat % 128) : Nat) : Int) = (result : Int) + v * 2 ^ (7 * k)) ∧
-    (v < 0 → ((v % 256).toNat % 128 / 64) % 2 = 1 ∧
-      result + 2 ^ (7 * k) * ((v % 256).toNat % 128) < 2 ^ (7 * k + 7) ∧
-      2 ^ 63 ≤ result + 2 ^ (7 * k) * ((v % 256).toNat % 128) + (2 ^ 64 - 2 ^ (7 * k + 7)) ∧
-      result + 2 ^ (7 * k) * ((v % 256).toNat % 128) + (2 ^ 64 - 2 ^ (7 * k + 7)) < 2 ^ 64 ∧
-      ((result + 2 ^ (7 * k) * ((v % 256).toNat % 128) + (2 ^ 64 - 2 ^ (7 * k + 7)) : Nat) : Int) - 2 ^ 64
-        = (result : Int) + v * 2 ^ (7 * k)) := by
-  have hk' : k = 0 ∨ k = 1 ∨ k = 2 ∨ k = 3 ∨ k = 4 ∨ k = 5 ∨ k = 6 ∨ k = 7 ∨ k = 8 := by omega
-  rcases hk' with rfl | rfl | rfl | rfl | rfl | rfl | rfl | rfl | rfl <;>
-    simp only [Nat.reduceMul, Nat.reducePow, Nat.reduceSub, Nat.reduceAdd, Int.reducePow] at hlo hhi hr ⊢ <;>
-    omega
-
-theorem A4 (k : Nat) (hk : k ≤ 8) (v : Int) (result : Nat)
-    (hlo : -(2 : Int) ^ (63 - 7 * k) ≤ v) (hhi : v < (2 : Int) ^ (63 - 7 * k)) (hr : result < 2 ^ (7 * k)) :
-    ((v % 256).toNat % 128) * 2 ^ (7 * k) < 2 ^ 64 ∧
-    result + 2 ^ (7 * k) * ((v % 256).toNat % 128) < 2 ^ (7 * (k + 1)) ∧
-    -(2 : Int) ^ (63 - 7 * (k + 1)) ≤ v / 64 / 2 ∧ v / 64 / 2 < (2 : Int) ^ (63 - 7 * (k + 1)) ∧
-    ((result + 2 ^ (7 * k) * ((v % 256).toNat % 128) : Nat) : Int) + (v / 64 / 2) * 2 ^ (7 * (k + 1))
-      = (result : Int) + v * 2 ^ (7 * k) := by
-  have hk' : k = 0 ∨ k = 1 ∨ k = 2 ∨ k = 3 ∨ k = 4 ∨ k = 5 ∨ k = 6 ∨ k = 7 ∨ k = 8 := by omega
-  rcases hk' with rfl | rfl | rfl | rfl | rfl | rfl | rfl | rfl | rfl <;>
-    simp only [Nat.reduceMul, Nat.reducePow, Nat.reduceSub, Nat.reduceAdd, Int.reducePow] at hlo hhi hr ⊢ <;>
-    omega
-
-theorem ofNat_toNat_lt (n : Nat) (h : n < 256) : (UInt8.ofNat n).toNat = n := by
-  simp; omega
-
-/-- the decoding loop on the output of the encoding loop, from any intermediate state:
-`k` groups done (`shift = 7k`), `result` holds the low `7k` bits, `v` is what is left to encode -/
-theorem signedLoop_encodeS (rest : Bytes) : ∀ (fuel k : Nat) (v : Int) (result : Nat), k ≤ 9 → 10 ≤ fuel + k →
-    -(2 : Int) ^ (63 - 7 * k) ≤ v → v < (2 : Int) ^ (63 - 7 * k) → result < 2 ^ (7 * k) →
-    ∃ res sh byte, signedLoop (encodeSFuel fuel v ++ rest) result (7 * k) = .ok (res, sh, byte, rest) ∧
-      finish res sh byte = (result : Int) + v * 2 ^ (7 * k) := by
-  intro fuel
+theorem signedLoop_encodeS (rest : Bytes) (fuel : Nat) : ∀ (k R : Nat) (v : Int),
+    StepHyp fuel k R v → StepGoal fuel k R v rest := by
   induction fuel with
-  | zero => intro k v result hk hf; omega
+  | zero => intro k R v hyp; obtain ⟨h1, _, h3, _⟩ := hyp; omega
   | succ fuel ih =>
-    intro k v result hk hf hlo hhi hr
-    rw [encodeSFuel_succ]
-    have hg : (v % 256).toNat % 128 < 128 := Nat.mod_lt _ (by decide)
-    by_cases ht : v / 64 = 0 ∨ v / 64 = -1
-    · simp only [ht, if_true, List.cons_append, List.nil_append]
-      rw [signedLoop_cons, ofNat_toNat_lt _ (by omega)]
-      by_cases h9 : k = 9
-      · -- the tenth group: v is 0 or -1
-        subst h9
-        simp only [Nat.reduceMul, Nat.reducePow, Nat.reduceSub, Int.reducePow] at hlo hhi hr ⊢
-        have hv : v = 0 ∨ v = -1 := by omega
-        rcases hv with rfl | rfl
-        · have h0 : ((0 : Int) % 256).toNat % 128 = 0 := by decide
-          rw [h0, if_neg (by decide), if_pos (by decide)]
-          refine ⟨_, _, _, rfl, ?_⟩
-          simp only [finish]
-          have hx : (0 % 128) <<< 63 % 2 ^ 64 = 0 := by decide
-          rw [hx, Nat.or_zero, if_neg (by omega), toI64_small _ (by omega)]
-          simp
-        · have h127 : ((-1 : Int) % 256).toNat % 128 = 127 := by decide
-          rw [h127, if_neg (by decide), if_pos (by decide)]
-          refine ⟨_, _, _, rfl, ?_⟩
-          simp only [finish]
-          have hx : (127 % 128) <<< 63 % 2 ^ 64 = 1 <<< 63 := by decide
-          rw [hx, or_add_of_lt 1 result 63 (by omega), if_neg (by omega), toI64_big _ (by omega) (by omega)]
-          omega
-      · have hk8 : k ≤ 8 := by omega
-        obtain ⟨_, hfit, hpos, hneg⟩ := T8 k hk8 v result ht hlo hhi hr
-        have hs : ¬ (7 * k = 63 ∧ (v % 256).toNat % 128 ≠ 0 ∧ (v % 256).toNat % 128 ≠ 0x7f) := by omega
-        simp only [hs, if_false, hg, if_true]
+    intro k R v hyp
+    have hk : k = 0 ∨ k = 1 ∨ k = 2 ∨ k = 3 ∨ k = 4 ∨ k = 5 ∨ k = 6 ∨ k = 7 ∨ k = 8 ∨ k = 9 := by
+      have := hyp.1; omega
+    rcases hk with rfl | rfl | rfl | rfl | rfl | rfl | rfl | rfl | rfl | rfl
+    · sleb_step 0 0 1
+    · sleb_step 1 7 2
+    · sleb_step 2 14 3
+    · sleb_step 3 21 4
+    · sleb_step 4 28 5
+    · sleb_step 5 35 6
+    · sleb_step 6 42 7
+    · sleb_step 7 49 8
+    · sleb_step 8 56 9
+    · -- ten groups: only the values 0 and -1 remain, the last byte is 0x00 or 0x7f
+      obtain ⟨_, hR, hf, hlo, hhi⟩ := hyp
+      unfold StepGoal
+      simp only [Nat.reduceMul, Nat.reducePow, Int.reducePow, Int.reduceNeg] at hR hlo hhi ⊢
+      rw [encodeSFuel]
+      have hv : v = 0 ∨ v = -1 := by omega
+      rcases hv with rfl | rfl
+      · have e0 : UInt8.ofNat (((0 : Int) % 256).toNat % 128) = 0 := by decide
+        rw [if_pos (Or.inl (by decide)), e0]
+        simp only [List.cons_append, List.nil_append]
+        rw [signedLoop]
+        simp only [show (0 : UInt8).toNat = 0 from rfl]
+        rw [if_neg (by decide), if_pos (by decide)]
         refine ⟨_, _, _, rfl, ?_⟩
-        have hgm : (v % 256).toNat % 128 % 128 = (v % 256).toNat % 128 := Nat.mod_eq_of_lt hg
-        rw [hgm, or_step _ _ _ hr hfit]
         unfold finish
-        rw [ofNat_toNat_lt _ (by omega)]
-        by_cases hv0 : 0 ≤ v
-        · obtain ⟨h1, h2, h3⟩ := hpos hv0
-          simp only [h1, Nat.zero_ne_one, and_false, if_false]
-          rw [toI64_small _ h2, h3]
-        · obtain ⟨h1, h2, h3, h4, h5⟩ := hneg (by omega)
-          have hsh : 7 * k + 7 < 64 := by omega
-          simp only [hsh, h1, and_self, if_true]
-          rw [signext k hk8 _ h2, toI64_big _ h3 h4, h5]
-    · have hk8 : k ≤ 8 := by
-        by_cases h9 : k = 9
-        · subst h9
-          simp only [Nat.reduceMul, Nat.reducePow, Nat.reduceSub, Int.reducePow] at hlo hhi
-          exact absurd (by omega) ht
-        · omega
-      obtain ⟨hfit, hnext, hlo', hhi', heq⟩ := A4 k hk8 v result hlo hhi hr
-      simp only [ht, if_false, List.cons_append]
-      rw [signedLoop_cons, ofNat_toNat_lt _ (by omega)]
-      have hs : ¬ (7 * k = 63 ∧ (v % 256).toNat % 128 + 128 ≠ 0 ∧ (v % 256).toNat % 128 + 128 ≠ 0x7f) := by omega
-      have hnl : ¬ ((v % 256).toNat % 128 + 128 < 128) := by omega
-      simp only [hs, if_false, hnl]
-      have hgm : ((v % 256).toNat % 128 + 128) % 128 = (v % 256).toNat % 128 := by omega
-      rw [hgm, or_step _ _ _ hr hfit, show 7 * k + 7 = 7 * (k + 1) by omega]
-      obtain ⟨res, sh, byte, h1, h2⟩ := ih (k + 1) (v / 64 / 2) _ (by omega) (by omega) hlo' hhi' hnext
-      exact ⟨res, sh, byte, h1, by rw [h2, heq]⟩
+        rw [if_neg (by decide)]
+        have : (0 % 128) <<< 63 % 2 ^ 64 = 0 := by decide
+        rw [this, Nat.or_zero]
+        unfold toI64
+        omega
+      · have e1 : UInt8.ofNat (((-1 : Int) % 256).toNat % 128) = 127 := by decide
+        rw [if_pos (Or.inr (by decide)), e1]
+        simp only [List.cons_append, List.nil_append]
+        rw [signedLoop]
+        simp only [show (127 : UInt8).toNat = 127 from rfl]
+        rw [if_neg (by decide), if_pos (by decide)]
+        refine ⟨_, _, _, rfl, ?_⟩
+        unfold finish
+        rw [if_neg (by decide)]
+        have : (127 % 128) <<< 63 % 2 ^ 64 = (1 <<< 63) % 2 ^ 64 := by decide
+        rw [this, or_step R 1 63 (by omega) (by decide)]
+        unfold toI64
+        omega
 
-/-- **`sleb_roundtrip`**: reading what `Leb128::signed` writes gives the value back and leaves
-exactly what followed -/
-theorem signed_roundtrip (v : Int) (hlo : -(2 : Int) ^ 63 ≤ v) (hhi : v < (2 : Int) ^ 63) (rest : Bytes) :
+/-- **Signed LEB128: write then read is the identity** for every `i64`, whatever follows. -/
+theorem signed_roundtrip (v : Int) (hlo : -(2 ^ 63 : Int) ≤ v) (hhi : v < 2 ^ 63) (rest : Bytes) :
     signed (encodeS v ++ rest) = .ok (v, rest) := by
-  obtain ⟨res, sh, byte, h1, h2⟩ := signedLoop_encodeS rest 10 0 v 0 (by omega) (by omega)
-    (by simpa using hlo) (by simpa using hhi) (by decide)
-  rw [signed_eq]
+  obtain ⟨R', sh', b, h1, h2⟩ := signedLoop_encodeS rest 10 0 0 v
+    ⟨by omega, by simp, by omega, by simpa using hlo, by simpa using hhi⟩
   simp only [Nat.mul_zero] at h1
   unfold encodeS
-  rw [h1]
-  simp only [Out.bind_ok, Out.pure_eq, h2]
+  rw [signed_eq_finish _ _ _ _ _ h1, h2]
   simp
 
 end Gimli.Leb
